@@ -124,6 +124,100 @@ def stage_operator_sweep(ctx: Ctx):
                         ctx.violation('struct|operator-replace', 'replacing an operator changed more than the operator (grouping)', {**rec, 'how': how, 'result_src': root.src, 'diffs': d})
 
 
+SWEEP_PROGS = [
+    'if x:\n    a \\\n  ;\n    b\n', 'while y:\n    c; \\\n    d\n', 'def f():\n    a;\n    b\n', 'if x:\n    if y:\n        a  ;  # c\n        b\nz\n',
+    'class C:\n    a = 1 \\\n    ; \\\n    b = 2\n', 'try:\n    a \\\n    ;\n    b\nfinally:\n    c;\n    d\n',
+    '(ann): int = 1\n(obj.attr): str\nclass K:\n    (field): list = []\n    plain: int\n', 'a: int = 1\n(b): int\nc.d: int = 2\ne[0]: int\n',
+    'for (i) in j: pass\nwith a as (b): pass\n[k for (k) in l]\n(m := n)\no = p = q\n',
+]
+PRIM_PROGS = ['x = 1.0.real\n', 'x = [1for y in z]\n', 'x = 1if y else 2\n', 'x = "a".upper()\n', 'x = not"a"\n', 'def f():\n    return"a" + b\n', 'x = "a"if"b"else"c"\n',
+              'x = 1.0 ** 2\n', 'x = -1\n', 'x = a[1:2]\n', 'x = f(1, k=2)\n', "x = '''m\nl'''.strip()\n", 'x = 1 .real + 2j\n', 'x = "é"if"b"else"c"  # ü\n', 'x = (1)\n']
+PRIM_VALUES = [1, 5, True, None, 2.5, -0.0, 0.0, -1, 1j, 's', b'b', ..., 10 ** 30, 1e100]
+TARGET_NEW = ['n', '(n)', 'n.m', 'n[0]', '(n.m)']
+
+
+def stage_structural_sweep(ctx: Ctx):
+    """deterministic sweeps: (a) every statement of a set of programs (line continuations before ';', trailing ';', nested blocks) removed / cut alone;
+    (b) every assignment-like target replaced by a name, a parenthesized name, an attribute, a subscript. After each: CPython re-parse comparison of all
+    fields and positions (e.g. AnnAssign.simple, block ends after a trailing ';')."""
+    import fst
+    from lib.progs import CORPUS
+    for src in SWEEP_PROGS + [CORPUS[-1]]:
+        probe = fst.FST(src, 'exec')
+        stmts = [probe.child_path(f) for f in probe.walk(True) if isinstance(f.a, ast.stmt) and f.parent is not None and len(getattr(f.parent.a, f.pfield.name)) > 1]   # emptying a block is allowed to give an unparsable source unless norm is set
+        for path in stmts:
+            for how in ('remove', 'cut'):
+                root = fst.FST(src, 'exec')
+                f = root.child_from_path(path)
+                rec = {'src': src, 'stmt': repr(f), 'how': how}
+                try:
+                    f.remove() if how == 'remove' else f.cut()
+                except Exception as e:
+                    ctx.dist[f'sweep:{how}:refused'] = ctx.dist.get(f'sweep:{how}:refused', 0) + 1
+                    d = reparse_diffs(root)
+                    if d:
+                        ctx.violation(f'sweep-raise-dirty|{how}|{type(e).__name__}', 'a refused statement removal left an inconsistent tree', {**rec, 'error': repr(e)[:200], 'diffs': d})
+                    continue
+                ctx.tick(('sweep', src, str(path), how), f'sweep:{how}')
+                d = reparse_diffs(root)
+                if d:
+                    ctx.violation(f'pos|stmt-{how}|{d[0].split(":")[0][-40:]}', 'after removing a statement the source parsed from scratch differs from the live tree',
+                                  {**rec, 'result_src': root.src, 'diffs': d})
+        targets = []
+        if src is SWEEP_PROGS[0]:
+            # (c) primitives put to Constant.value where the constant touches its neighbours
+            for csrc in PRIM_PROGS:
+                cprobe = fst.FST(csrc, 'exec')
+                for path in [cprobe.child_path(f) for f in cprobe.walk(True) if isinstance(f.a, ast.Constant)]:
+                    for val in PRIM_VALUES:
+                        root = fst.FST(csrc, 'exec')
+                        f = root.child_from_path(path)
+                        rec = {'src': csrc, 'node': repr(f), 'value': repr(val)}
+                        try:
+                            f.put(val, 'value')
+                        except Exception as e:
+                            ctx.dist['sweep:prim:refused'] = ctx.dist.get('sweep:prim:refused', 0) + 1
+                            d = reparse_diffs(root)
+                            if d:
+                                ctx.violation(f'sweep-raise-dirty|prim|{type(e).__name__}', 'a refused primitive put left an inconsistent tree', {**rec, 'error': repr(e)[:200], 'diffs': d})
+                            continue
+                        ctx.tick(('sweep', csrc, str(path), repr(val)), 'sweep:prim')
+                        d = reparse_diffs(root)
+                        if d:
+                            ctx.violation(f'pos|prim-put|{d[0].split(":")[0][-30:]}', 'after putting a primitive to Constant.value the source parsed from scratch differs from the live tree',
+                                          {**rec, 'result_src': root.src, 'diffs': d})
+        for f in probe.walk(True):
+            a = f.a
+            if isinstance(a, (ast.AnnAssign, ast.For, ast.AsyncFor, ast.NamedExpr, ast.comprehension, ast.AugAssign)):
+                targets.append((probe.child_path(f), 'target', None))
+            elif isinstance(a, ast.Assign):
+                targets += [(probe.child_path(f), 'targets', i) for i in range(len(a.targets))]
+            elif isinstance(a, ast.withitem) and a.optional_vars is not None:
+                targets.append((probe.child_path(f), 'optional_vars', None))
+        for path, field, idx in targets:
+            for new in TARGET_NEW:
+                for code_as in ('src', 'fst', 'ast'):
+                    root = fst.FST(src, 'exec')
+                    f = root.child_from_path(path)
+                    rec = {'src': src, 'node': repr(f), 'field': field, 'idx': idx, 'new': new, 'code_as': code_as}
+                    code = new if code_as == 'src' else fst.FST(new, 'expr') if code_as == 'fst' else ast.parse(new, mode='eval').body
+                    if code_as == 'ast' and new.startswith('('):
+                        continue
+                    try:
+                        f.put(code, idx, field=field) if idx is not None else f.put(code, field=field)
+                    except Exception as e:
+                        ctx.dist['sweep:target:refused'] = ctx.dist.get('sweep:target:refused', 0) + 1
+                        d = reparse_diffs(root)
+                        if d:
+                            ctx.violation(f'sweep-raise-dirty|target|{type(e).__name__}', 'a refused target replacement left an inconsistent tree', {**rec, 'error': repr(e)[:200], 'diffs': d})
+                        continue
+                    ctx.tick(('sweep', src, str(path), field, idx, new, code_as), 'sweep:target')
+                    d = reparse_diffs(root)
+                    if d:
+                        ctx.violation(f'pos|target-replace|{type(f.a).__name__}|{d[0].split(":")[0][-30:]}', 'after replacing a target the source parsed from scratch differs from the live tree',
+                                      {**rec, 'result_src': root.src, 'diffs': d})
+
+
 def run(ctx: Ctx):
     ctx.rule = ('random edit sequences (length 1..8 quick / 1..30 thorough) over the hand corpus + generated programs; ops: replace/remove/cut of '
                 'expressions, statements, patterns; put_slice/insert/extend/prextend of statements and expressions; put(one); attribute '
@@ -142,6 +236,7 @@ def run(ctx: Ctx):
     with tracer:
         run_guarded(ctx, stage_sequences, progs, tracer)
     run_guarded(ctx, stage_operator_sweep)
+    run_guarded(ctx, stage_structural_sweep)
     if ok:
         try:
             failed = coq_eval_bools('C01_troff', HDR, tracer.terms_offset, shard=40)
